@@ -357,6 +357,25 @@ type LoopContract struct {
 
 type AnchorAssert struct {
 	Store  string // name of local whose store triggers the assertion
+	Send   string // or: name of the channel whose send triggers it ("sent" is the value)
+	Call   string // or: name of the callee (function / closure variable) whose call triggers it (callee parameter names are bound to the arguments)
+	Clause *Clause
+}
+
+// AnchorSet: ghost assignment "set g = expr after store X" / "after send ch".
+type AnchorSet struct {
+	Ghost string
+	Expr  CExpr
+	Src   string
+	Store string
+	Send  string
+	Call  string // "at call NAME": executed just before a call of NAME
+	Loop  int    // "at loop k": executed at the head of loop k on every iteration
+}
+
+// ChanContract: assumed on every value received from the named channel ("recv" is the value).
+type ChanContract struct {
+	Chan   string
 	Clause *Clause
 }
 
@@ -382,6 +401,8 @@ type FuncContract struct {
 	HasModifies bool
 	Loops    map[int]*LoopContract
 	Asserts  []*AnchorAssert
+	Sets     []*AnchorSet
+	Chans    []*ChanContract
 	Ghosts   []*GhostVar
 	Opaque   []string // spec functions kept uninterpreted in this function's VCs unless revealed by a clause
 	File     string
@@ -604,11 +625,19 @@ func parseContractFile(path, pkgPath string) (*ContractFile, error) {
 					curLoop.Decreases = c
 				}
 			case "assert":
-				// assert after store X: label: expr
-				if !strings.HasPrefix(rest, "after store ") {
-					return nil, fmt.Errorf("%s:%d: assert needs 'after store <local>:'", path, ln+1)
+				// assert after store X: label: expr   |   assert at send CH: label: expr
+				var aa AnchorAssert
+				r := ""
+				switch {
+				case strings.HasPrefix(rest, "after store "):
+					r = strings.TrimPrefix(rest, "after store ")
+				case strings.HasPrefix(rest, "at send "):
+					r = strings.TrimPrefix(rest, "at send ")
+				case strings.HasPrefix(rest, "at call "):
+					r = strings.TrimPrefix(rest, "at call ")
+				default:
+					return nil, fmt.Errorf("%s:%d: assert needs 'after store <local>:' or 'at send <chan>:'", path, ln+1)
 				}
-				r := strings.TrimPrefix(rest, "after store ")
 				i := strings.Index(r, ":")
 				if i < 0 {
 					return nil, fmt.Errorf("%s:%d: assert syntax", path, ln+1)
@@ -617,7 +646,58 @@ func parseContractFile(path, pkgPath string) (*ContractFile, error) {
 				if err != nil {
 					return nil, err
 				}
-				cur.Asserts = append(cur.Asserts, &AnchorAssert{Store: strings.TrimSpace(r[:i]), Clause: c})
+				aa.Clause = c
+				if strings.HasPrefix(rest, "at send ") {
+					aa.Send = strings.TrimSpace(r[:i])
+				} else if strings.HasPrefix(rest, "at call ") {
+					aa.Call = strings.TrimSpace(r[:i])
+				} else {
+					aa.Store = strings.TrimSpace(r[:i])
+				}
+				cur.Asserts = append(cur.Asserts, &aa)
+			case "set":
+				// set g = expr after store X | after send CH
+				var as AnchorSet
+				body := rest
+				if i := strings.LastIndex(rest, " after store "); i >= 0 {
+					as.Store = strings.TrimSpace(rest[i+len(" after store "):])
+					body = rest[:i]
+				} else if i := strings.LastIndex(rest, " after send "); i >= 0 {
+					as.Send = strings.TrimSpace(rest[i+len(" after send "):])
+					body = rest[:i]
+				} else if i := strings.LastIndex(rest, " at call "); i >= 0 {
+					as.Call = strings.TrimSpace(rest[i+len(" at call "):])
+					body = rest[:i]
+				} else if i := strings.LastIndex(rest, " at loop "); i >= 0 {
+					as.Loop, _ = strconv.Atoi(strings.TrimSpace(rest[i+len(" at loop "):]))
+					body = rest[:i]
+				} else {
+					return nil, fmt.Errorf("%s:%d: set needs 'after store <local>' or 'after send <chan>'", path, ln+1)
+				}
+				eqi := strings.Index(body, "=")
+				if eqi < 0 {
+					return nil, fmt.Errorf("%s:%d: set syntax", path, ln+1)
+				}
+				as.Ghost = strings.TrimSpace(body[:eqi])
+				as.Src = strings.TrimSpace(body[eqi+1:])
+				e, err := parseCExpr(as.Src)
+				if err != nil {
+					return nil, fmt.Errorf("%s:%d: %v", path, ln+1, err)
+				}
+				as.Expr = e
+				cur.Sets = append(cur.Sets, &as)
+			case "chan":
+				// chan NAME: label: expr   (assumed on received values; trusted unless the producer proves it)
+				i := strings.Index(rest, ":")
+				if i < 0 {
+					return nil, fmt.Errorf("%s:%d: chan syntax", path, ln+1)
+				}
+				c, err := mkClause(rest[i+1:])
+				if err != nil {
+					return nil, err
+				}
+				cur.Chans = append(cur.Chans, &ChanContract{Chan: strings.TrimSpace(rest[:i]), Clause: c})
+				cf.Trusted = append(cf.Trusted, fmt.Sprintf("channel contract assumed in %s on %s: %s", cur.Key, strings.TrimSpace(rest[:i]), c.Src))
 			case "ghost":
 				// ghost var name type = init
 				f := strings.Fields(rest)
